@@ -454,8 +454,10 @@ func (w *inotify) handleEvent(inEvent *unix.InotifyEvent, buf *[65536]byte, offs
 			return Event{}, true
 		}
 
+		// EINVAL means the kernel already dropped the watch (e.g. the file was
+		// deleted right after it was renamed); that's not an error.
 		err := w.remove(watch.path)
-		if err != nil && !errors.Is(err, ErrNonExistentWatch) {
+		if err != nil && !errors.Is(err, ErrNonExistentWatch) && !errors.Is(err, unix.EINVAL) {
 			if !w.sendError(err) {
 				return Event{}, false
 			}
